@@ -393,36 +393,41 @@ def ok_tokens(s):
 
 
 # observations -------------------------------------------------------
-def obs_full(s):
+def obs_full(s, rec=None):
     return nospacing(s)
 
 
-def obs_class(s):
+def obs_class(s, rec=None):
     return outcome_class(s)
 
 
-def obs_msgs(s):
+def obs_msgs(s, rec=None):
     c = outcome_class(s)
     if c == 'err':
         return ('err', tuple(sorted(m if m is not None else '#lib' for m in err_msgs(s))))
     return (c,)
 
 
-def obs_headers(s):
+def obs_headers(s, rec=None):
     c = outcome_class(s)
     if c != 'ok':
         return obs_msgs(s)
     return ('ok', tuple(sorted(header_of(i) for i in split_impls(ok_tokens(s)))))
 
 
-def obs_idents(s):
+def obs_idents(s, rec=None):
     c = outcome_class(s)
     if c != 'ok':
         return (c,)
     return ('ok', tuple(sorted(idents(ok_tokens(s)))))
 
 
-def agree(impl, model, obs=obs_full):
+def obs_none(s, rec=None):
+    """no token-level observation: the property's own relation is compared instead (metamorphic properties)"""
+    return outcome_class(s)
+
+
+def agree(impl, model, obs=obs_full, rec=None):
     """'ok' | 'oom' | 'diff' for one case under an observation (model #lib messages are wildcards)"""
     if model is None:
         return 'diff'
@@ -433,7 +438,7 @@ def agree(impl, model, obs=obs_full):
     if ic != mc:
         return 'diff'
     if ic == 'err':
-        if obs is obs_class:
+        if obs is obs_class or obs is obs_none:
             return 'ok'
         a = err_msgs(impl)
         b = err_msgs(model)
@@ -445,7 +450,7 @@ def agree(impl, model, obs=obs_full):
         return 'ok'
     if ic == 'panic':
         return 'ok'
-    return 'ok' if obs(impl) == obs(model) else 'diff'
+    return 'ok' if obs(impl, rec) == obs(model, rec) else 'diff'
 
 
 # ------------------------------------------------------------------ known findings
